@@ -30,10 +30,20 @@ type KnownFile struct {
 }
 
 type PropMeta struct {
-	Reach       string   `json:"reach"`
-	NotDecided  []string `json:"not_decided"`
-	Assumptions []string `json:"assumptions"`
-	Bounded     []string `json:"bounded"`
+	Reach          string          `json:"reach"`
+	NotDecided     []string        `json:"not_decided"`
+	Assumptions    []string        `json:"assumptions"`
+	Bounded        []string        `json:"bounded"`
+	BoundedDrivers []BoundedDriver `json:"bounded_drivers"`
+}
+
+// BoundedDriver: a bounded stand-in (exhaustive run of the real function up to a stated bound).
+// Labelled bounded in the evidence, never counted among the discharged obligations.
+type BoundedDriver struct {
+	Driver string `json:"driver"`
+	Pkg    string `json:"pkg"` // import path of the package the driver is injected into
+	Bound  string `json:"bound"`
+	What   string `json:"what"`
 }
 
 type Mutant struct {
@@ -263,6 +273,47 @@ func cmdCheck(args []string) int {
 		violationLines = append(violationLines, fmt.Sprintf("VIOLATION property=%s replay=%s%s", *prop, path, suffix))
 	}
 
+	// bounded stand-ins (labelled; not proofs)
+	var meta map[string]PropMeta
+	readJSON(filepath.Join(*verif, "propmeta.json"), &meta)
+	var boundedReport []string
+	for _, bd := range meta[*prop].BoundedDrivers {
+		con := &FuncContract{Key: bd.Driver, PkgPath: bd.Pkg, Replay: bd.Driver}
+		if *tier == "thorough" {
+			os.Setenv("VERIF_BOUNDED_DEEP", "1")
+		}
+		out, failed, witness := runReplay(*repo, *verif, con, nil, "")
+		cases := ""
+		for _, l := range strings.Split(out, "\n") {
+			if i := strings.Index(l, "BOUNDED-OK"); i >= 0 {
+				cases = strings.TrimSpace(l[i:])
+			}
+		}
+		if failed {
+			violations++
+			os.MkdirAll(replayDir, 0755)
+			path := filepath.Join(replayDir, "bounded_"+mangle(bd.Driver)+".json")
+			rep := map[string]interface{}{"property": *prop, "obligation": "bounded stand-in " + bd.Driver, "bound": bd.Bound, "witness": witness, "replay_output": out, "reproduced_on_real_code": true}
+			b, _ := json.MarshalIndent(rep, "", " ")
+			os.WriteFile(path, append(b, '\n'), 0644)
+			fmt.Printf("FAILED-BOUNDED %s: %s\n", bd.Driver, witness)
+			violationLines = append(violationLines, fmt.Sprintf("VIOLATION property=%s replay=%s", *prop, path))
+			boundedReport = append(boundedReport, fmt.Sprintf("BOUNDED (not a proof) %s [%s]: FAILED %s", bd.What, bd.Bound, witness))
+		} else if cases == "" {
+			violations++
+			os.MkdirAll(replayDir, 0755)
+			path := filepath.Join(replayDir, "bounded_"+mangle(bd.Driver)+".json")
+			rep := map[string]interface{}{"property": *prop, "obligation": "bounded stand-in " + bd.Driver, "bound": bd.Bound, "replay_output": out, "reproduced_on_real_code": false, "status": "driver did not complete"}
+			b, _ := json.MarshalIndent(rep, "", " ")
+			os.WriteFile(path, append(b, '\n'), 0644)
+			violationLines = append(violationLines, fmt.Sprintf("VIOLATION property=%s replay=%s no-failing-input-found", *prop, path))
+			boundedReport = append(boundedReport, fmt.Sprintf("BOUNDED (not a proof) %s [%s]: driver did not complete", bd.What, bd.Bound))
+		} else {
+			boundedReport = append(boundedReport, fmt.Sprintf("BOUNDED (not a proof) %s [%s]: %s", bd.What, bd.Bound, cases))
+		}
+	}
+	boundedGlobal = boundedReport
+
 	// thorough: must-fail corpus for this property
 	var selftest map[string]interface{}
 	if *tier == "thorough" {
@@ -412,9 +463,7 @@ func writeEvidence(verif, prop, tier string, seed int, P *Program, results []*Fu
 		"known_findings_matched": knownN,
 		"explanation":   "every obligation is generated from the SSA of /repo's current working tree (packages loaded with -tags verif) and discharged by an SMT solver; vacuity covers (expect sat) are counted as obligations",
 	}
-	if pm.Bounded == nil {
-		cov["bounded"] = []string{}
-	}
+	cov["bounded"] = append(append([]string{}, pm.Bounded...), boundedGlobal...)
 	if selftest != nil {
 		cov["selftest"] = selftest
 	}
@@ -426,6 +475,8 @@ func writeEvidence(verif, prop, tier string, seed int, P *Program, results []*Fu
 	b, _ := json.MarshalIndent(ev, "", " ")
 	os.WriteFile(filepath.Join(verif, "evidence", prop+".json"), append(b, '\n'), 0644)
 }
+
+var boundedGlobal []string
 
 func round3(f float64) float64 { return float64(int(f*1000+0.5)) / 1000 }
 
